@@ -97,11 +97,15 @@ LabelTextFree(t) == LabFreeFrom(t, 1)
 
 \* a text the zone-file tokenizer takes as one unquoted token standing for
 \* itself: no unescaped blank, line end, quote, parenthesis or semicolon, and
-\* not the bare `@`.  (Conservative: a special character counts as escaped
-\* only if exactly one backslash precedes it.)
+\* not the bare `@` (the origin) or `\#` (RFC 3597 marker of unknown record
+\* data).  (Conservative: a special character counts as escaped only if
+\* exactly one backslash precedes it.)  What `\[` at the start of a label
+\* means in a zone file is left open (the zone-file reader takes it for `[`,
+\* the other readers refuse it as the start of a binary label).
 ZoneSpecials == {9, 10, 13, 32, 34, 40, 41, 59}
 ZoneTokenSafe(t) ==
-  /\ t # <<>> /\ t # <<64>>
+  /\ t # <<>> /\ t # <<64>> /\ t # <<92, 35>>
+  /\ ~\E p \in 1..(Len(t) - 1) : t[p] = 92 /\ t[p + 1] = 91 /\ (p = 1 \/ t[p - 1] = 46)
   /\ \A p \in 1..Len(t) :
         t[p] \in ZoneSpecials => (p > 1 /\ t[p - 1] = 92 /\ (p = 2 \/ t[p - 2] # 92))
 
